@@ -110,10 +110,22 @@ def check_stop_region(view, bs, start, s, rule, what_prefix, seed_locals, seed_p
                 is_t = tainted_op(rv["op"], tn)
                 if rv["op"]["k"] in ("move", "copy") and not rv["op"]["place"]["p"]:
                     var = kn.get(rv["op"]["place"]["l"])
+                elif rv["op"]["k"] == "const" and "bool" in rv["op"]:
+                    var = "#T" if rv["op"]["bool"] else "#F"        # a flag (`let stop = true`)
+                elif rv["op"]["k"] in ("move", "copy") and len(rv["op"]["place"]["p"]) == 1 and rv["op"]["place"]["p"][0]["k"] == "field":
+                    tv = kn.get(rv["op"]["place"]["l"])
+                    fi = rv["op"]["place"]["p"][0].get("i")
+                    if isinstance(tv, tuple) and tv and tv[0] == "#tuple" and fi is not None and fi < len(tv[1]):
+                        var = tv[1][fi]                              # `let (e, stop) = ..`
             elif rv["k"] == "agg":
                 is_t = any(tainted_op(o, tn) for o in rv["ops"])
                 if rv.get("ak") == "adt":
                     var = rv.get("variant")
+                elif rv.get("ak") == "tuple":
+                    var = ("#tuple", tuple(("#T" if o["bool"] else "#F") if (o["k"] == "const" and "bool" in o) else None for o in rv["ops"]))
+            elif rv["k"] == "unop" and rv.get("op") == "Not" and rv["a"]["k"] in ("move", "copy") and not rv["a"]["place"]["p"]:
+                x_ = kn.get(rv["a"]["place"]["l"])
+                var = "#F" if x_ == "#T" else "#T" if x_ == "#F" else None
             elif rv["k"] == "cast":
                 is_t = tainted_op(rv["op"], tn)
             if not dst["p"]:
@@ -198,6 +210,13 @@ def check_stop_region(view, bs, start, s, rule, what_prefix, seed_locals, seed_p
                 if tgt is not None:
                     work.append((tgt, frozenset(kn.items()), frozenset(tn)))
                     continue
+            if info["kind"] == "bool":
+                d_ = t["discr"]
+                if d_["k"] in ("move", "copy") and not d_["place"]["p"] and kn.get(d_["place"]["l"]) in ("#T", "#F"):
+                    tgt = view.edge_target(info, kn[d_["place"]["l"]] == "#T")
+                    if tgt is not None:
+                        work.append((tgt, frozenset(kn.items()), frozenset(tn)))
+                        continue
             for y in view.succ[bb]:
                 work.append((y, frozenset(kn.items()), frozenset(tn)))
             continue
@@ -243,11 +262,86 @@ def c03_rules(view, bs):
 
 
 def gprime_succ(view, bs):
-    """successor map of G': Break edges of switched sites removed"""
+    """successor map of G': Break edges of switched sites removed - and with them the edges that only a flag set on a Break
+    path can take (`let stop = matches!(answer, Break(_)); .. if stop { return .. }`): a bool local whose every definition
+    reachable in G' assigns the same constant decides its switches"""
     succ = [list(x) for x in view.succ]
     for s in bs.sites:
         if s.handling == "switched" and s.brk is not None and s.sw_bb is not None:
             succ[s.sw_bb] = [x for x in succ[s.sw_bb] if x != s.brk or x == s.cont]
+    for _round in range(4):
+        reach = set()
+        st = [0]
+        while st:
+            x = st.pop()
+            if x in reach or x in view.unreach:
+                continue
+            reach.add(x)
+            st.extend(succ[x])
+        changed = False
+        for bb in sorted(reach):
+            tm = view.blocks[bb]["term"]
+            if tm["k"] != "switch" or len(set(succ[bb])) < 2:
+                continue
+            info = view.switch_info(bb)
+            if not info or info["kind"] != "bool":
+                continue
+            d = tm["discr"]
+            if d["k"] not in ("copy", "move") or d["place"]["p"]:
+                continue
+            l = d["place"]["l"]
+            neg = False
+            # `!flag` computed into a temporary right before the switch
+            wd = view.whole_defs(l)
+            if len(wd) == 1 and wd[0][0] == "stmt" and wd[0][3]["rv"]["k"] == "unop" and wd[0][3]["rv"]["op"] == "Not" and \
+                    wd[0][3]["rv"]["a"]["k"] in ("copy", "move") and not wd[0][3]["rv"]["a"]["place"]["p"]:
+                l = wd[0][3]["rv"]["a"]["place"]["l"]
+                neg = True
+                wd = view.whole_defs(l)
+            elif len(wd) == 1 and wd[0][0] == "stmt" and wd[0][3]["rv"]["k"] == "use" and wd[0][3]["rv"]["op"]["k"] in ("copy", "move") and \
+                    not wd[0][3]["rv"]["op"]["place"]["p"]:
+                l = wd[0][3]["rv"]["op"]["place"]["l"]
+                wd = view.whole_defs(l)
+            vals = set()
+            ok = bool(wd)
+            for df in wd:
+                if df[0] != "stmt":
+                    ok = False
+                    break
+                if df[1] not in reach:
+                    continue       # a definition that only a Break path executes
+                rv = df[3]["rv"]
+                if rv["k"] == "use" and rv["op"]["k"] == "const" and "bool" in rv["op"]:
+                    vals.add(rv["op"]["bool"])
+                elif rv["k"] == "use" and rv["op"]["k"] in ("copy", "move") and len(rv["op"]["place"]["p"]) == 1 and rv["op"]["place"]["p"][0]["k"] == "field":
+                    # `let (x, flag) = match answer { Continue(e) => (e, false), Break(e) => (e, true) }`
+                    tl = rv["op"]["place"]["l"]
+                    fi = rv["op"]["place"]["p"][0].get("i")
+                    for d2 in view.whole_defs(tl):
+                        if d2[0] != "stmt":
+                            ok = False
+                            break
+                        if d2[1] not in reach:
+                            continue
+                        r2 = d2[3]["rv"]
+                        if r2["k"] == "agg" and r2.get("ak") == "tuple" and fi is not None and fi < len(r2["ops"]) and r2["ops"][fi]["k"] == "const" and "bool" in r2["ops"][fi]:
+                            vals.add(r2["ops"][fi]["bool"])
+                        else:
+                            ok = False
+                            break
+                    if not ok:
+                        break
+                else:
+                    ok = False
+                    break
+            if ok and len(vals) == 1:
+                val = next(iter(vals)) != neg
+                keep = view.edge_target(info, val)
+                if keep is not None and set(succ[bb]) != {keep}:
+                    succ[bb] = [keep]
+                    changed = True
+        if not changed:
+            break
     return succ
 
 
@@ -355,6 +449,8 @@ def c02_rules(view, bs):
                     continue
                 if (x, y) in none_edges or (x, y) in break_edges:
                     continue
+                if y not in gsucc[x]:
+                    continue    # an edge only a flag set on a Break path can take (pruned from the keep-going graph)
                 out.append(finding("C02.LOOP", view,
                                    "payload loop is left early by an edge that is neither exhaustion nor a Break answer", x))
 
